@@ -49,7 +49,7 @@ func runC02(c *Ctx) {
 		maxN = 7
 	}
 	c.Exhaustive = true
-	c.Rule = fmt.Sprintf("every vector in ({matched,unmatched} x {allow,deny,other})^n for 1 <= n <= %d and each of the 5 effect expressions, driven through the real Enforce/EnforceEx/BatchEnforce on a model whose matcher is r.sub == p.sub (exhaustive), each followed (n <= 4) on the same enforcer by EnforceWithMatcher / EnforceExWithMatcher / BatchEnforceWithMatcher with a custom matcher that selects one rule by its object; n = 0 (empty policy, also after the last rule was removed) for each effect; every ordered pair of distinct effects as e / e2 with the request made through EnforceContext (e2 must decide; both as a struct literal over r/p/m and as NewEnforceContext(\"2\") over a complete second set r2/p2/e2/m2), vectors of length <= 2; every direct MergeEffects call on arrays of length <= 3 at every index; non-trivial = at least one matched rule; distinct = (effect, vector)", maxN)
+	c.Rule = fmt.Sprintf("every vector in ({matched,unmatched} x {allow,deny,other})^n for 1 <= n <= %d and each of the 5 effect expressions, driven through the real Enforce/EnforceEx/BatchEnforce on a model whose matcher is r.sub == p.sub (exhaustive), each followed (n <= 4) on the same enforcer by EnforceWithMatcher / EnforceExWithMatcher / BatchEnforceWithMatcher with a custom matcher that selects one rule by its object; n = 0 (empty policy, also after the last rule was removed) for each effect; every ordered pair of distinct effects as e / e2 with the request made through EnforceContext (e2 must decide; both as a struct literal over r/p/m and as NewEnforceContext(\"2\") over a complete second set r2/p2/e2/m2), vectors of length <= 2; every vector of length <= 3 again with a matcher function that itself calls Enforce for another subject (the outer decision and explanation must not change); every direct MergeEffects call on arrays of length <= 3 at every index; non-trivial = at least one matched rule; distinct = (effect, vector)", maxN)
 
 	for _, k := range effectKinds {
 		e, err := casbin.NewEnforcer(c02Model(k.expr))
@@ -260,6 +260,57 @@ func runC02(c *Ctx) {
 				c.W.Op(fmt.Sprintf("enfvec %s %s", kb.name, strings.Join(names, "")), obs)
 				c.Evals++
 				c.Count("second_definition_set_calls", 1)
+			}
+		}
+	}
+
+	// an Enforce call made from inside a matcher function (a custom function that consults the enforcer about
+	// another subject) runs its own merge pass while the outer one is under way: the outer decision and explanation
+	// must be what they are without the nested call (implementation only)
+	for _, k := range effectKinds {
+		m := c02Model(k.expr)
+		m.AddDef("m", "m", "r.sub == p.sub && probe(p.obj)")
+		e, err := casbin.NewEnforcer(m)
+		if err != nil {
+			panic(err)
+		}
+		nest, depth := false, 0
+		e.AddFunction("probe", func(args ...interface{}) (interface{}, error) {
+			if nest && depth == 0 {
+				depth++
+				_, _, _ = e.EnforceEx("bob", "y", "read")
+				depth--
+			}
+			return true, nil
+		})
+		for code := 0; code < 6+36+216; code++ {
+			var vec []int
+			switch {
+			case code < 6:
+				vec = []int{code}
+			case code < 42:
+				vec = []int{(code - 6) / 6, (code - 6) % 6}
+			default:
+				x := code - 42
+				vec = []int{x / 36, (x / 6) % 6, x % 6}
+			}
+			e.ClearPolicy()
+			rules := make([][]string, len(vec))
+			names := make([]string, len(vec))
+			for i, cell := range vec {
+				rules[i] = cellRule(cell, i)
+				names[i] = cellNames[cell]
+			}
+			_, _ = e.AddPolicies(rules)
+			nest = false
+			ok0, ex0, err0 := e.EnforceEx("alice", "x", "read")
+			nest = true
+			ok1, ex1, err1 := e.EnforceEx("alice", "x", "read")
+			nest = false
+			c.Evals++
+			c.Count("nested_enforce_cases", 1)
+			if ok0 != ok1 || fmt.Sprint(ex0) != fmt.Sprint(ex1) || (err0 == nil) != (err1 == nil) {
+				c.Direct("an Enforce call made from inside a matcher function changes the outer decision or explanation", fmt.Sprintf("effect=%s cells=%s: without the nested call %v %v, with it %v %v", k.name, strings.Join(names, ""), ok0, ex0, ok1, ex1))
 			}
 		}
 	}
